@@ -30,6 +30,12 @@ the script's callbacks are compared with replay line by line including the depth
 replayShownX, c18_depth_matches_replay_fixups).  cmds/replay.c before the repair of F-C18-EXIT-ADDR is the
 model variant `exitaddr=0`.
 
+Exec chains (group `exec2` of the H3 part): one task execs once or twice (prog -> stage2 [-> prog]); task.txt
+has a SESS line per stage, each with its own map file, and prog.sym / stage2.sym give the SAME addresses
+DIFFERENT names.  UFTRACE_FUNCS lists names of both programs so that some address is listed under exactly one
+of its two names; every stage calls it.  Same monitors: the callbacks (Python and Lua) are exactly the calls
+replay shows whose NAME is listed, in every stage (the model's function numbers are per name, not per address).
+
 Every thread at record time (harness/c18_mt.py): generated pthread programs (2-4 threads) recorded with -S
 <logging script> in Python and in Lua, one callback slow, the other threads' hooks forced to overlap with
 it; per tid the callback log must equal the calls of the recorded data and be properly paired (Lean:
@@ -57,6 +63,22 @@ ADDR = [D.BASE + rel for rel, _, _ in SYMS]
 FN_OF_ADDR = {a: k for k, a in enumerate(ADDR)}
 FN_OF_NAME = {n: k for k, n in enumerate(ALLNAMES)}
 FIX_FNS = {FN_OF_NAME[n]: k for n, k in FIXKIND.items()}
+# a second program (what an exec'd, identically laid out non-PIE stage has): the SAME addresses carry OTHER
+# names (main stays main).  Its functions are function numbers of their own (N_ALL + k - 1 for slot k): the model,
+# the monitors and UFTRACE_FUNCS are about functions / names, only the records carry addresses.
+N_ALL = len(ALLNAMES)
+S2NAMES = ["main", "omega", "psi", "chi", "phi", "tau", "rho", "nu"]
+EXE2 = "/synth/stage2"
+SID2, SID3 = "0f1e2d3c4b5a6978", "5566778899aabbcc"
+SYMS2 = [(rel, sz, (S2NAMES[k] if k < NF else n)) for k, (rel, sz, n) in enumerate(SYMS)]
+ALLNAMES = ALLNAMES + S2NAMES[1:]
+ADDR = ADDR + ADDR[1:NF]
+FN_OF_NAME = {n: k for k, n in enumerate(ALLNAMES)}
+
+
+def fn2(k):
+    """function number of slot k (1 <= k < NF) in the second program; main (slot 0) is the same function"""
+    return N_ALL + k - 1 if k else 0
 T0 = 2000
 HAVE_LUA = True
 OCT_CASE = {"python": True, "lua": True}     # does the binding have `case ARG_FMT_OCT` (set from the translator)
@@ -652,7 +674,7 @@ def gen_fixup_case(rng, idx, tier):
     case["opts"] = o
     funcs, matched = [], None
     if rng.random() < 0.2:
-        sel = rng.sample(range(len(ALLNAMES)), rng.choice([2, 3, 5]))
+        sel = rng.sample(range(N_ALL), rng.choice([2, 3, 5]))
         funcs = [ALLNAMES[f] for f in sel]
         matched = sorted(sel)
     case["funcs"], case["matched"] = funcs, matched
@@ -663,6 +685,108 @@ def gen_fixup_case(rng, idx, tier):
     # --no-merge (the same differences exist between the two replay modes; they are replay's, not the script's)
     case["merge"] = rng.random() < 0.5 and not (o["F"] or o["N"] or o["D"])
     return case
+
+
+# ------------------------------------------------------------------ exec chains: one address, two names
+def gen_exec2_case(rng, idx, tier):
+    """One task that execs once or twice (prog -> stage2 [-> prog]): task.txt has a SESS line per stage, every
+    stage its own map and symbol file, and the same addresses carry different names in prog.sym and stage2.sym.
+    UFTRACE_FUNCS lists names of both programs so that for some address exactly one of its two names is listed;
+    every stage calls these addresses."""
+    case = {"idx": idx, "group": "exec2", "payloads": [], "args": False, "argless": 0, "specs": {}, "fixups": True, "exec2": True}
+    case["lang"] = "lua" if (rng.random() < 0.4 and HAVE_LUA) else "py"
+    tids = rng.sample(range(100, 30000), 1)
+    t = [T0 + rng.randint(0, 40)]
+
+    def step():
+        x = rng.random()
+        t[0] += rng.randint(1, 60) if x < 0.9 else rng.randint(100, 900000)
+        return t[0]
+    nstage = rng.choice([2, 2, 3])
+    # the function list: slots listed under their first name only, under their second name only, under both, not at all
+    slots = list(range(1, NF))
+    rng.shuffle(slots)
+    only1, only2 = slots[:rng.choice([1, 2])], slots[2:2 + rng.choice([1, 2])]
+    both = slots[4:4 + rng.choice([0, 1])]
+    sel = sorted(only1 + both) + sorted(fn2(k) for k in only2 + both)
+    if rng.random() < 0.3:
+        sel.append(0)
+    crit = only1 + only2 + both
+    recs, stack = [], []
+    sess = []                # start time of the sessions after the first
+
+    def E(fn):
+        recs.append(("E", step(), len(stack), fn, 0))
+        stack.append(fn)
+
+    def X():
+        fn = stack.pop()
+        recs.append(("X", step(), len(stack), fn, 0))
+    E(0)
+    for stage in range(nstage):
+        F = (lambda k: k) if stage % 2 == 0 else fn2
+        todo = list(crit)
+        rng.shuffle(todo)
+        maxdepth = rng.choice([3, 4, 6])
+        for _ in range(rng.choice([8, 14, 20])):
+            if len(stack) < maxdepth and (len(stack) <= 1 or rng.random() < 0.55):
+                E(F(todo.pop() if (todo and rng.random() < 0.6) else rng.randrange(1, NF)))
+            else:
+                X()
+        for k in todo:           # every critical address is called in every stage
+            E(F(k))
+            X()
+        if stage + 1 < nstage:
+            recs.append(("E", step(), len(stack), FN_OF_NAME[rng.choice(["execve", "execl"])], 0))
+            del stack[:]
+            t[0] += 1
+            sess.append(t[0])       # the new program's session starts after the exec call and before its first record
+            t[0] += 1
+            E(0)
+    if rng.random() < 0.75:
+        while stack:
+            X()
+    tasks = [{"tid": tids[0], "recs": recs, "open": len(stack)}]
+    case["tasks"] = tasks
+    case["sessions"] = sess
+    case["fix_counts"] = {"s": 0, "l": 0, "e": nstage - 1, "f": 0}
+    o = {"F": [], "N": [], "D": None, "t": None, "noargs": False, "tid": None}
+    if rng.random() < 0.2:
+        o["D"] = rng.randint(2, 4)
+    case["opts"] = o
+    r = rng.random()
+    if r < 0.25:
+        funcs = ["^(%s)$" % "|".join(ALLNAMES[f] for f in sel)]
+    else:
+        funcs = [ALLNAMES[f] for f in sel] + (["nosuchfunction"] if r < 0.4 else [])
+    case["funcs"], case["matched"] = funcs, sorted(sel)
+    case["slots"] = {"listed_under_first_name_only": [NAMES[k] + "/" + S2NAMES[k] for k in only1],
+                     "listed_under_second_name_only": [NAMES[k] + "/" + S2NAMES[k] for k in only2],
+                     "listed_under_both": [NAMES[k] + "/" + S2NAMES[k] for k in both]}
+    case["merge"] = rng.random() < 0.5 and not o["D"]
+    return case
+
+
+def exec2_overrides(case, files):
+    """the files of the later sessions: SESS (+ TASK, as the new program's libmcount sends both) lines in task.txt,
+    a map per session, the second program's symbol file"""
+    pid = case["tasks"][0]["tid"]
+    out = {}
+    txt = files["task.txt"].decode()
+    for j, st in enumerate(case["sessions"]):
+        second = j % 2 == 0
+        sid = SID2 if j == 0 else SID3
+        exe = EXE2 if second else D.EXE
+        txt += "SESS timestamp=%s pid=%d sid=%s exename=\"%s\"\n" % (D.ts(st), pid, sid, exe)
+        txt += "TASK timestamp=%s tid=%d pid=%d\n" % (D.ts(st), pid, pid)
+        m = files["sid-%s.map" % D.SID].decode("utf-8", "surrogateescape")
+        out["sid-%s.map" % sid] = m.replace(D.EXE, exe).encode("utf-8", "surrogateescape")
+    sym = ["# symbols: %d" % len(SYMS2), "# path name: " + EXE2, "# build-id: "]
+    for rel, size, name in sorted(SYMS2):
+        sym.append("%016x %08x T %s" % (rel, size, name))
+    out[os.path.basename(EXE2) + ".sym"] = ("\n".join(sym) + "\n").encode()
+    out["task.txt"] = txt.encode()
+    return out
 
 
 PY_SCRIPT = '''import json
@@ -730,7 +854,7 @@ def write_case(case, d):
         dd.specs = case["specs"]
     else:
         dd = D.DataDir(SYMS, tasks)
-    dd.write(d)
+    dd.write(d, overrides=exec2_overrides(case, dd.files()) if case.get("exec2") else None)
     ext = ".py" if case["lang"] == "py" else ".lua"
     sp = os.path.join(d, "c18log" + ext)
     with open(sp, "w") as f:
@@ -766,7 +890,7 @@ def model_line(case, cmd, argsfixed=1, funcs=True, exitaddr=1):
          "thr=%d" % (o["t"] or 0), "showargs=%d" % (0 if o["noargs"] else 1), "argsfixed=%d" % argsfixed,
          "exitaddr=%d" % exitaddr,
          "F=" + lst(o["F"]), "N=" + lst(o["N"]),
-         "funcs=" + (lst(case["matched"] if case["matched"] else [len(ALLNAMES) + 7]) if (funcs and case["funcs"]) else "-"),
+         "funcs=" + (lst(case["matched"] if case["matched"] else [len(ALLNAMES) + 7 + NF]) if (funcs and case["funcs"]) else "-"),
          "argtrig=" + lst(trig)]
     if case.get("fixups"):
         w.append("fix=" + ",".join("%d:%s" % (f, k) for f, k in sorted(FIX_FNS.items())))
@@ -940,12 +1064,15 @@ def run_h3(ctx, uftrace, known):
     rng = ctx.rng
     quick = ctx.tier == "quick"
     plan = [("plain", 150 if quick else 8000), ("funcs", 50 if quick else 2500), ("args", 70 if quick else 4000),
-            ("argless", 12 if quick else 200), ("oct", 8 if quick else 100), ("fixup", 90 if quick else 4000)]
+            ("argless", 12 if quick else 200), ("oct", 8 if quick else 100), ("fixup", 90 if quick else 4000),
+            ("exec2", 40 if quick else 1500)]
     cases = []
     for group, n in plan:
         for _ in range(n):
             if group == "fixup":
                 cases.append(gen_fixup_case(rng, len(cases), ctx.tier))
+            elif group == "exec2":
+                cases.append(gen_exec2_case(rng, len(cases), ctx.tier))
             else:
                 cases.append(gen_case(rng, len(cases), ctx.tier, group))
     root = os.path.join(ctx.scratch, "h3")
@@ -978,7 +1105,8 @@ def run_h3(ctx, uftrace, known):
           "prefix_args": 0, "oct_defect": 0, "lua": 0, "with_funcs": 0, "with_filters": 0, "with_args": 0, "open_calls": 0,
           "argless_entries": 0, "folded": 0, "arg_values_compared": 0, "arg_kinds": {}, "str_len_mod4": [0, 0, 0, 0],
           "multi_arg_payloads": 0, "fixup_cases": 0, "fixup_records": {"s": 0, "l": 0, "e": 0, "f": 0},
-          "fork_children": 0, "longjmp_entry_callbacks": 0, "prefix_exit_addr": 0}
+          "fork_children": 0, "longjmp_entry_callbacks": 0, "prefix_exit_addr": 0, "exec2_cases": 0, "exec2_sessions": 0,
+          "exec2_callbacks_second_name": 0}
     distinct = set()
     samples = []
     reported = {"": 0, F_OCT: 0}
@@ -992,6 +1120,9 @@ def run_h3(ctx, uftrace, known):
         st["with_args"] += case["args"]
         st["open_calls"] += sum(t["open"] for t in case["tasks"])
         st["argless_entries"] += case["argless"]
+        if case.get("exec2"):
+            st["exec2_cases"] += 1
+            st["exec2_sessions"] += 1 + len(case["sessions"])
         if case.get("fixups"):
             st["fixup_cases"] += 1
             for k, v in case["fix_counts"].items():
@@ -1007,6 +1138,8 @@ def run_h3(ctx, uftrace, known):
         cbs, bad1 = ev_script(case, out1)
         rep, bad2 = ev_replay(case, out2)
         st["callbacks"] += len(cbs)
+        if case.get("exec2"):
+            st["exec2_callbacks_second_name"] += sum(1 for c in cbs if c[0] == "E" and FN_OF_NAME.get(c[5], 0) >= N_ALL)
         st["longjmp_entry_callbacks"] += sum(1 for c in cbs if c[0] == "E" and FIXKIND.get(c[5]) == "l")
         st["folded"] += sum(1 for x in rep if x[0] == "X" and x[3] is None)
         for c in cbs:
@@ -1100,7 +1233,7 @@ def run_h3(ctx, uftrace, known):
             st["replay_vs_model_bad"] += 1
         # the funcs theorem on the model's own output (sanity of the tie): filtered run = filter of the full run
         if case["matched"] is not None:
-            filt = [c for c in m_all if c[0] not in "EX" or FN_OF_ADDR[c[4] if c[0] == "E" else c[5]] in case["matched"]]
+            filt = [c for c in m_all if c[0] not in "EX" or FN_OF_NAME[c[5] if c[0] == "E" else c[6]] in case["matched"]]
             if filt != m_fixed:
                 problems.append("model: run with funcs differs from the filtered full run")
         if mon:
